@@ -30,6 +30,11 @@ package cleaner
 //@   modifies ghost_committedEpoch
 //@   ghost nsetcommitted := ghost_nsetcommitted + 1
 
+// The candidates are ordered newest first by their full timestamps: the first
+// snapshot seen for an instance is its newest one.
+//@ func (w *Worker) RunOnce$1
+//@   ensures newest_first_by_full_timestamp: iff(r0 < 0, a.Timestamp.After(b.Timestamp)) && iff(r0 > 0, !a.Timestamp.After(b.Timestamp) && a.Timestamp.Before(b.Timestamp))
+
 // First filter of a cleaning run: a snapshot stays a removal candidate only if
 // it was first seen in an earlier run and more than the keep interval ago.
 //@ func (w *Worker) RunOnce$2
